@@ -158,6 +158,8 @@ def build_cases(seed, n, max_points):
             {"njob": 3, "resources": "gpu:2,tpu:2", "keep_going": True}]
     for name, fn in SHAPES.items():
         proj = fn()
+        if proj.get("schedule_dependent"):
+            continue
         cfg = cfgs[1]
         phases = [initial_phase(proj, cfg=cfg, seed=seed)]
         # crash during the first build and during a rebuild after switching every versioned source
